@@ -5,6 +5,7 @@ import (
 	"encoding/binary"
 	"encoding/gob"
 	"fmt"
+	"math"
 	"reflect"
 	"sync"
 	"time"
@@ -964,6 +965,142 @@ type Content struct {
 	// Uint32Slice is a specialized byte slice designed for storing and managing 4-byte (uint32) values in a
 	// compact and efficient format.
 	Uint32Slice *Uint32Slice
+	// ZeroFields is used by the persistence encoding only (ConvertToByte / LoadFromByte) and is
+	// always 0 on a live treasure. gob does not transmit zero values, so a typed field holding
+	// 0, false, "", an empty byte array or an empty slice would be decoded as nil (= void).
+	// ConvertToByte records those fields here as a bit set and LoadFromByte restores them.
+	// Files written before this field existed decode with ZeroFields == 0 and load as before.
+	ZeroFields uint32
+}
+
+// bits of Content.ZeroFields
+const (
+	zeroFieldUint8 uint32 = 1 << iota
+	zeroFieldUint16
+	zeroFieldUint32
+	zeroFieldUint64
+	zeroFieldInt8
+	zeroFieldInt16
+	zeroFieldInt32
+	zeroFieldInt64
+	zeroFieldFloat32
+	zeroFieldFloat64
+	zeroFieldString
+	zeroFieldBoolean
+	zeroFieldByteArray
+	zeroFieldUint32Slice
+	zeroFieldFloat32Negative // the float32 zero is -0.0
+	zeroFieldFloat64Negative // the float64 zero is -0.0
+)
+
+// zeroFields returns the set of typed fields of c that are in use but hold a value gob omits.
+func (c *Content) zeroFields() (zf uint32) {
+	if c.Uint8 != nil && *c.Uint8 == 0 {
+		zf |= zeroFieldUint8
+	}
+	if c.Uint16 != nil && *c.Uint16 == 0 {
+		zf |= zeroFieldUint16
+	}
+	if c.Uint32 != nil && *c.Uint32 == 0 {
+		zf |= zeroFieldUint32
+	}
+	if c.Uint64 != nil && *c.Uint64 == 0 {
+		zf |= zeroFieldUint64
+	}
+	if c.Int8 != nil && *c.Int8 == 0 {
+		zf |= zeroFieldInt8
+	}
+	if c.Int16 != nil && *c.Int16 == 0 {
+		zf |= zeroFieldInt16
+	}
+	if c.Int32 != nil && *c.Int32 == 0 {
+		zf |= zeroFieldInt32
+	}
+	if c.Int64 != nil && *c.Int64 == 0 {
+		zf |= zeroFieldInt64
+	}
+	if c.Float32 != nil && *c.Float32 == 0 {
+		zf |= zeroFieldFloat32
+		if math.Signbit(float64(*c.Float32)) {
+			zf |= zeroFieldFloat32Negative
+		}
+	}
+	if c.Float64 != nil && *c.Float64 == 0 {
+		zf |= zeroFieldFloat64
+		if math.Signbit(*c.Float64) {
+			zf |= zeroFieldFloat64Negative
+		}
+	}
+	if c.String != nil && *c.String == "" {
+		zf |= zeroFieldString
+	}
+	if c.Boolean != nil && !*c.Boolean {
+		zf |= zeroFieldBoolean
+	}
+	if c.ByteArray != nil && len(c.ByteArray) == 0 {
+		zf |= zeroFieldByteArray
+	}
+	if c.Uint32Slice != nil && len(*c.Uint32Slice) == 0 {
+		zf |= zeroFieldUint32Slice
+	}
+	return zf
+}
+
+// restoreZeroFields re-creates the typed zero values recorded in ZeroFields and clears the set.
+func (c *Content) restoreZeroFields() {
+	zf := c.ZeroFields
+	c.ZeroFields = 0
+	if zf == 0 {
+		return
+	}
+	if zf&zeroFieldUint8 != 0 && c.Uint8 == nil {
+		c.Uint8 = new(uint8)
+	}
+	if zf&zeroFieldUint16 != 0 && c.Uint16 == nil {
+		c.Uint16 = new(uint16)
+	}
+	if zf&zeroFieldUint32 != 0 && c.Uint32 == nil {
+		c.Uint32 = new(uint32)
+	}
+	if zf&zeroFieldUint64 != 0 && c.Uint64 == nil {
+		c.Uint64 = new(uint64)
+	}
+	if zf&zeroFieldInt8 != 0 && c.Int8 == nil {
+		c.Int8 = new(int8)
+	}
+	if zf&zeroFieldInt16 != 0 && c.Int16 == nil {
+		c.Int16 = new(int16)
+	}
+	if zf&zeroFieldInt32 != 0 && c.Int32 == nil {
+		c.Int32 = new(int32)
+	}
+	if zf&zeroFieldInt64 != 0 && c.Int64 == nil {
+		c.Int64 = new(int64)
+	}
+	if zf&zeroFieldFloat32 != 0 && c.Float32 == nil {
+		c.Float32 = new(float32)
+		if zf&zeroFieldFloat32Negative != 0 {
+			*c.Float32 = float32(math.Copysign(0, -1))
+		}
+	}
+	if zf&zeroFieldFloat64 != 0 && c.Float64 == nil {
+		c.Float64 = new(float64)
+		if zf&zeroFieldFloat64Negative != 0 {
+			*c.Float64 = math.Copysign(0, -1)
+		}
+	}
+	if zf&zeroFieldString != 0 && c.String == nil {
+		c.String = new(string)
+	}
+	if zf&zeroFieldBoolean != 0 && c.Boolean == nil {
+		c.Boolean = new(bool)
+	}
+	if zf&zeroFieldByteArray != 0 && c.ByteArray == nil {
+		c.ByteArray = []byte{}
+	}
+	if zf&zeroFieldUint32Slice != 0 && c.Uint32Slice == nil {
+		c.Uint32Slice = new(Uint32Slice)
+	}
 }
 
 // TreasureStatus is an enumeration type representing the status of a "Treasure" operation in the Swamp.
@@ -1561,9 +1698,20 @@ func (t *treasure) ConvertToByte(guardID guard.ID) ([]byte, error) {
 		newObj.treasure.Content = t.treasure.Content
 	}
 
+	// gob omits zero values: record the typed fields that hold one on a copy of the content,
+	// so that LoadFromByte can restore them (the live content is left untouched)
+	model := t.treasure
+	if model.Content != nil {
+		if zf := model.Content.zeroFields(); zf != 0 {
+			contentCopy := *model.Content
+			contentCopy.ZeroFields = zf
+			model.Content = &contentCopy
+		}
+	}
+
 	var buf bytes.Buffer
 	encoder := gob.NewEncoder(&buf)
-	err := encoder.Encode(t.treasure)
+	err := encoder.Encode(model)
 	if err != nil {
 		return nil, err
 	}
@@ -1585,6 +1733,10 @@ func (t *treasure) LoadFromByte(guardID guard.ID, b []byte, fileName string) err
 	err := decoder.Decode(&t.treasure)
 	if err != nil {
 		return err
+	}
+	// restore the typed zero values gob did not transmit
+	if t.treasure.Content != nil {
+		t.treasure.Content.restoreZeroFields()
 	}
 	// filenév beállítása
 	t.treasure.FileName = &fileName
